@@ -29,6 +29,14 @@ JudgeProbe(r, i) ==
       (IF cs = "ok" \/ cd # "ok" THEN {} ELSE   \* a default-mode mismatch is reported once, under C01
          {[line |-> l, id |-> r.id, probe |-> i, prop |-> "C11", class |-> cs, obs |-> ob.vals,
            exp |-> M3(ob.v, r.ty, r.env, {}, TRUE)]})
+      \cup
+      \* a verdict is a function of (value, mode): the same object validated in alternating modes (default, strict, default,
+      \* strict; and strict first on another object) must get the verdicts that fresh objects get
+      (IF Bool3(ob.val) # "E" /\ Bool3(ob.vals) # "E" /\ "hist" \in DOMAIN ob /\ ob.hist # ""
+          /\ (ob.hist # ob.val \o ob.vals \o ob.val \o ob.vals \/ ob.hist2 # ob.vals \o ob.val \o ob.vals)
+       THEN {[line |-> l, id |-> r.id, probe |-> i, prop |-> pr, class |-> "NEW", obs |-> "same object, alternating modes: " \o ob.hist \o " / " \o ob.hist2,
+              exp |-> ob.val \o ob.vals \o ob.val \o ob.vals \o " / " \o ob.vals \o ob.val \o ob.vals] : pr \in {"C01", "C11"}}
+       ELSE {})
 
 Observe ==
   /\ l <= Len(Rec)
